@@ -54,6 +54,46 @@ class IterCases:
     action_constraints = ["Emit"]
 
 
+class BinCases:
+    """One enumeration of BinFormat.tla (C14, C15)."""
+    module = "BinFormat.tla"
+    invariants = ["LengthOK", "RoundTripOK", "PermutationOK", "DiskIsLE", "TruncationOK", "EmitInv"]
+    action_constraints = ["EmitCut"]
+    families = None
+
+    def __init__(self, name, directed, width, mode, maxn=3, maxedges=2, labels=(0, 258), workers=4, emit=True):
+        self.name, self.directed, self.width, self.mode = name, directed, width, mode
+        self.maxn, self.maxedges, self.labels, self.workers, self.emit = maxn, maxedges, labels, workers, emit
+        self.kind = "nolabel" if width == 0 else "labeled"
+
+    def constants(self):
+        return {"Directed": "= " + ("TRUE" if self.directed else "FALSE"), "Kind": '= "%s"' % self.kind, "Pinned": "= {}",
+                "MaxN": "= %d" % self.maxn, "MaxEdges": "= %d" % self.maxedges, "LabelWidth": "= %d" % self.width,
+                "LabelVals": "= " + vf.tla_set(self.labels), "Mode": '= "%s"' % self.mode,
+                "EmitJson": "= " + ("TRUE" if self.emit else "FALSE")}
+
+
+class TextCases:
+    """One enumeration of TextFormat.tla (C13, C15)."""
+    module = "TextFormat.tla"
+    invariants = ["RoundTripOK", "WhitespaceOK", "NamesOK", "EmitInv"]
+    action_constraints = []
+    families = None
+
+    def __init__(self, name, directed, codec, mode, maxn=3, maxedges=2, labels=(0, 1, 2), lineset="tiny", workers=4,
+                 emit=True):
+        self.name, self.directed, self.codec, self.mode = name, directed, codec, mode
+        self.maxn, self.maxedges, self.labels, self.lineset = maxn, maxedges, labels, lineset
+        self.workers, self.emit = workers, emit
+        self.kind = "nolabel" if codec == "none" else "labeled"
+
+    def constants(self):
+        return {"Directed": "= " + ("TRUE" if self.directed else "FALSE"), "Kind": '= "%s"' % self.kind, "Pinned": "= {}",
+                "MaxN": "= %d" % self.maxn, "MaxEdges": "= %d" % self.maxedges, "Codec": '= "%s"' % self.codec,
+                "LabelVals": "= " + vf.tla_set(self.labels), "Mode": '= "%s"' % self.mode,
+                "LineSet": '= "%s"' % self.lineset, "EmitJson": "= " + ("TRUE" if self.emit else "FALSE")}
+
+
 def run_cases(pid, cs, ah_exe, seed=1, timeout=3600, extra_plan=None):
     d = vf.fresh_dir(os.path.join(vf.RUN, pid, cs.name))
     module = getattr(cs, "module", "Derived.tla")
@@ -72,6 +112,7 @@ def run_cases(pid, cs, ah_exe, seed=1, timeout=3600, extra_plan=None):
         os.makedirs(vf.REPLAYS, exist_ok=True)
         plan = {"replay_dir": vf.REPLAYS, "tag": "%s-%s-algo" % (pid, cs.name), "max_fail": 3, "seed": int(seed),
                 "crash_note": os.path.join(d, "crash.json"), "records": records}
+        plan["tmp"] = vf.fresh_dir(os.path.join(d, "tmp"))
         if cs.families:
             plan["families"] = cs.families
         if extra_plan:
@@ -139,7 +180,8 @@ def run_ah_on_file(pid, name, cases_path, ah_exe, seed=1, timeout=3600, extra_pl
     os.makedirs(vf.REPLAYS, exist_ok=True)
     records = os.path.join(d, "records.ndjson")
     plan = {"replay_dir": vf.REPLAYS, "tag": "%s-%s-algo" % (pid, name), "max_fail": 3, "seed": int(seed),
-            "crash_note": os.path.join(d, "crash.json"), "records": records}
+            "crash_note": os.path.join(d, "crash.json"), "records": records,
+            "tmp": vf.fresh_dir(os.path.join(d, "tmp"))}
     if extra_plan:
         plan.update(extra_plan)
     planf = os.path.join(d, "plan.json")
